@@ -17,8 +17,9 @@
    AtomicWaker: register(w) stores the waker; wake() takes the stored waker, if any, and wakes it;
    a wake with an empty slot is lost.  OnceLock::get_or_init: the first store wins, later ones
    return the stored value.  Both are taken as atomic (linearizable) operations.
-   Only the driver registers in this slot.  The driver task's executor flag `woken` is cleared
-   when a poll begins (as every executor does before calling poll). *)
+   Only the driver registers in this slot.  Every driver poll brings its OWN waker (poll number
+   `gen`): the slot remembers which one it holds, and `woken` says whether the waker of the current
+   poll was woken -- a wake-up delivered to a waker of an earlier poll does not count. *)
 From H3V Require Import Base.Bytes Gen.GenCodes Gen.GenSharedErr Spec.FirstErrorWins.
 
 Record cfg := {
@@ -142,8 +143,9 @@ Definition sidle : stask := {| sprog := []; sacc := None |}.
 
 Record world := {
   cell : option err;        (* SharedState.connection_error *)
-  wslot : bool;             (* SharedState.waker holds the driver's waker *)
-  woken : bool;             (* the driver task has been woken since its last poll began *)
+  wslot : option nat;       (* SharedState.waker holds the waker the driver passed to poll number n *)
+  woken : bool;             (* the waker of the driver's current (latest) poll has been woken *)
+  gen : nat;                (* number of the driver's current (latest) poll: every poll brings its own waker *)
   dprog : list instr;       (* rest of the driver's current poll; [] = not inside a poll *)
   parked : bool;            (* the driver's last poll returned Pending *)
   handled : option cerr;    (* ConnectionInner.handled_connection_error *)
@@ -151,7 +153,7 @@ Record world := {
   trace : list event }.     (* observation, newest first *)
 
 Definition init (k : nat) : world :=
-  {| cell := None; wslot := false; woken := false; dprog := []; parked := false; handled := None;
+  {| cell := None; wslot := None; woken := false; gen := O; dprog := []; parked := false; handled := None;
      streams := repeat sidle k; trace := [] |}.
 
 Fixpoint upd {A : Type} (l : list A) (i : nat) (x : A) : list A :=
@@ -163,6 +165,8 @@ Fixpoint upd {A : Type} (l : list A) (i : nat) (x : A) : list A :=
 
 Inductive action :=
 | ABegin (calls : list dcall) (pend : bool)   (* the driver task starts a poll *)
+| ACall (e : err)                             (* the driver task runs an API call that is not a poll of the connection
+                                                 (shutdown, ...) and fails with e there: handle_connection_error(e) *)
 | AStep                                       (* the driver executes its next statement *)
 | ARaise (i : nat) (e : err)                  (* stream task i detects e and calls set_conn_error_and_wake *)
 | ASStep (i : nat).                           (* stream task i executes its next statement *)
@@ -173,39 +177,39 @@ Definition dstep (c : cfg) (w : world) : world :=
   | I_memo :: rest =>
       match handled w with
       | Some ce =>
-          {| cell := cell w; wslot := wslot w; woken := woken w; dprog := []; parked := false;
+          {| cell := cell w; wslot := wslot w; woken := woken w; gen := gen w; dprog := []; parked := false;
              handled := handled w; streams := streams w; trace := EReport HDriver ce :: trace w |}
       | None =>
-          {| cell := cell w; wslot := wslot w; woken := woken w; dprog := rest; parked := parked w;
+          {| cell := cell w; wslot := wslot w; woken := woken w; gen := gen w; dprog := rest; parked := parked w;
              handled := handled w; streams := streams w; trace := trace w |}
       end
   | I_register :: rest =>
-      {| cell := cell w; wslot := true; woken := woken w; dprog := rest; parked := parked w;
+      {| cell := cell w; wslot := Some (gen w); woken := woken w; gen := gen w; dprog := rest; parked := parked w;
          handled := handled w; streams := streams w; trace := trace w |}
   | I_check :: rest =>
-      {| cell := cell w; wslot := wslot w; woken := woken w;
+      {| cell := cell w; wslot := wslot w; woken := woken w; gen := gen w;
          dprog := match cell w with Some e => map (hop e) (c_hit c) | None => rest end;
          parked := parked w; handled := handled w; streams := streams w; trace := trace w |}
   | I_point _ :: rest =>
-      {| cell := cell w; wslot := wslot w; woken := woken w; dprog := rest; parked := parked w;
+      {| cell := cell w; wslot := wslot w; woken := woken w; gen := gen w; dprog := rest; parked := parked w;
          handled := handled w; streams := streams w; trace := trace w |}
   | I_set e :: _ =>
       let cl := store c (cell w) e in
       let e' := match cl with Some x => x | None => e end in
-      {| cell := cl; wslot := wslot w; woken := woken w;
+      {| cell := cl; wslot := wslot w; woken := woken w; gen := gen w;
          dprog := map (hop e') (after_set (c_handle c));
          parked := parked w; handled := handled w; streams := streams w;
          trace := ERaise HDriver e :: trace w |}
   | I_close e :: rest =>
-      {| cell := cell w; wslot := wslot w; woken := woken w; dprog := rest; parked := parked w;
+      {| cell := cell w; wslot := wslot w; woken := woken w; gen := gen w; dprog := rest; parked := parked w;
          handled := handled w; streams := streams w;
          trace := match close_code c e with Some k => EClose k :: trace w | None => trace w end |}
   | I_convert e :: _ =>
-      {| cell := cell w; wslot := wslot w; woken := woken w; dprog := []; parked := false;
+      {| cell := cell w; wslot := wslot w; woken := woken w; gen := gen w; dprog := []; parked := false;
          handled := if c_memo c then Some (convert c e) else handled w;
          streams := streams w; trace := EReport HDriver (convert c e) :: trace w |}
   | I_end p :: _ =>
-      {| cell := cell w; wslot := wslot w; woken := woken w; dprog := []; parked := p;
+      {| cell := cell w; wslot := wslot w; woken := woken w; gen := gen w; dprog := []; parked := p;
          handled := handled w; streams := streams w;
          trace := (if p then EPending else EReadyOk) :: trace w |}
   end.
@@ -218,22 +222,27 @@ Definition sstep (c : cfg) (w : world) (i : nat) : world :=
       | [] => w
       | S_store e :: rest =>
           let cl := store c (cell w) e in
-          {| cell := cl; wslot := wslot w; woken := woken w; dprog := dprog w; parked := parked w;
+          {| cell := cl; wslot := wslot w; woken := woken w; gen := gen w; dprog := dprog w; parked := parked w;
              handled := handled w;
              streams := upd (streams w) i {| sprog := rest; sacc := cl |};
              trace := ERaise (HStream i) e :: trace w |}
       | S_wake :: rest =>
-          {| cell := cell w; wslot := false; woken := if wslot w then true else woken w;
+          {| cell := cell w; wslot := None;
+             woken := match wslot w with
+                      | Some g => if Nat.eqb g (gen w) then true else woken w
+                      | None => woken w
+                      end;
+             gen := gen w;
              dprog := dprog w; parked := parked w; handled := handled w;
              streams := upd (streams w) i {| sprog := rest; sacc := sacc s |};
              trace := trace w |}
       | S_point _ :: rest =>
-          {| cell := cell w; wslot := wslot w; woken := woken w; dprog := dprog w; parked := parked w;
+          {| cell := cell w; wslot := wslot w; woken := woken w; gen := gen w; dprog := dprog w; parked := parked w;
              handled := handled w;
              streams := upd (streams w) i {| sprog := rest; sacc := sacc s |};
              trace := trace w |}
       | S_ret :: rest =>
-          {| cell := cell w; wslot := wslot w; woken := woken w; dprog := dprog w; parked := parked w;
+          {| cell := cell w; wslot := wslot w; woken := woken w; gen := gen w; dprog := dprog w; parked := parked w;
              handled := handled w;
              streams := upd (streams w) i {| sprog := rest; sacc := None |};
              trace := match sacc s with
@@ -248,7 +257,14 @@ Definition step (c : cfg) (w : world) (a : action) : world :=
   | ABegin calls pend =>
       match dprog w with
       | [] =>
-          {| cell := cell w; wslot := wslot w; woken := false; dprog := poll_prog c calls pend;
+          {| cell := cell w; wslot := wslot w; woken := false; gen := S (gen w); dprog := poll_prog c calls pend;
+             parked := false; handled := handled w; streams := streams w; trace := trace w |}
+      | _ :: _ => w
+      end
+  | ACall e =>
+      match dprog w with
+      | [] =>
+          {| cell := cell w; wslot := wslot w; woken := false; gen := S (gen w); dprog := call_prog c (CallHandle e);
              parked := false; handled := handled w; streams := streams w; trace := trace w |}
       | _ :: _ => w
       end
@@ -258,7 +274,7 @@ Definition step (c : cfg) (w : world) (a : action) : world :=
       | Some s =>
           match sprog s with
           | [] =>
-              {| cell := cell w; wslot := wslot w; woken := woken w; dprog := dprog w; parked := parked w;
+              {| cell := cell w; wslot := wslot w; woken := woken w; gen := gen w; dprog := dprog w; parked := parked w;
                  handled := handled w;
                  streams := upd (streams w) i {| sprog := raise_prog c e; sacc := None |};
                  trace := trace w |}
